@@ -28,6 +28,7 @@ type RunOut struct {
 	Sig        string        `json:"sig"`
 	Reason     string        `json:"reason"`
 	Steps      int           `json:"steps"`
+	Procs      int           `json:"gomaxprocs"` // GOMAXPROCS of the worker process (code under test may consult it)
 	Switches   int           `json:"switches"`
 	Yields     int64         `json:"yields"`
 	VTimeNs    int64         `json:"vtime_ns"`
@@ -109,6 +110,7 @@ func runOnce(t *testing.T, p *Property, tier string, seed uint64, scen, sched []
 	out.Sig = fmt.Sprintf("%016x", res.SigHash)
 	out.Reason = res.Reason
 	out.Steps = res.Steps
+	out.Procs = runtime.GOMAXPROCS(0)
 	out.Switches = res.Switches
 	out.Yields = res.Yields
 	out.VTimeNs = int64(res.VTime)
